@@ -4,7 +4,6 @@
 use libfuzzer_sys::fuzz_target;
 use std::sync::OnceLock;
 
-const MAGIC: &[u8] = b"VibratoTokenizer 0.5\n";
 
 fn images() -> &'static Vec<Vec<u8>> {
     static IMAGES: OnceLock<Vec<Vec<u8>>> = OnceLock::new();
@@ -44,6 +43,9 @@ fuzz_target!(|data: &[u8]| {
     }
     let imgs = images();
     let img = &imgs[data[0] as usize % imgs.len()];
+    // the current magic is the first line of a freshly written image
+    #[allow(non_snake_case)]
+    let MAGIC: &[u8] = &img[..=img.iter().position(|&b| b == b'\n').unwrap()];
     let pos = u32::from_le_bytes([data[2], data[3], data[4], data[5]]) as usize;
     let stream: Vec<u8> = match data[1] % 4 {
         0 => img[..pos % img.len()].to_vec(), // strict prefix
